@@ -92,6 +92,18 @@ CHECKS = {
         note=COMMON_NOTE,
         technique="TLA+ flat-string semantics + TLC trace validation, exhaustive small scope of construction programs",
     ),
+    "C18": dict(
+        text="Conc.tla models threads over a shared CachedSource (cache per option set, shard locks, clones), a parent that keeps borrowed "
+             "names while a user child yields, and a ReplaceSource with a stale lazy-sort index - one action per code segment between the "
+             "crate's schedule points. TLC (a) model-checks WriteOnce, BorrowsLive, ReadsFresh, CloneOK, deadlock freedom and termination "
+             "under weak fairness for all 2-thread x 2-call and 3-thread x 1-call programs, (b) emits EVERY interleaving of all pairs of "
+             "one-call threads (and sampled 3-thread behaviours) as schedules that a deterministic scheduler replays on the real crate, "
+             "(c) validates the recorded runs: each call's answer equals the sequential answer of an uncached twin, the identity of the "
+             "map stored per option set never changes, no deadlock. A broken variant of the model (insert overwrites) must violate "
+             "WriteOnce in every run (non-vacuity).",
+        note=COMMON_NOTE + " Interleavings are at the granularity of the hook points (feature verif); the scheduler serialises threads, so weak-memory effects are outside. Schedules that the code does not follow are reported as MODEL-DRIFT, never as a violation.",
+        technique="TLA+ concurrency model: TLC model checking + TLC-generated schedules replayed deterministically + TLC trace validation",
+    ),
     "C19": dict(
         text="Guarded probes (feature verif) evaluate the documented precondition immediately before each of the 15 unsafe operations; the "
              "harness records per call which sites were reached and which probes were false (a false probe is written to a side file first, "
